@@ -23,6 +23,12 @@ type checker struct {
 	maxPaths          int64
 	only              string
 	solver            string
+	// harness files left out because they do not compile against this tree
+	// (a white-box harness naming a field that a refactoring removed): the
+	// rest is still checked, the verdict can then be VIOLATION or
+	// INCONCLUSIVE, never OK
+	dropped     []string
+	filesCached []string
 }
 
 type knownFinding struct {
@@ -44,16 +50,15 @@ func (c *checker) tierN() int {
 }
 
 func (c *checker) harnessFiles() ([]string, error) {
+	if c.filesCached != nil {
+		return c.filesCached, nil
+	}
 	fs, err := filepath.Glob(filepath.Join(c.verif, "harness", "zz_verif_*.go"))
 	sort.Strings(fs)
 	return fs, err
 }
 
-func (c *checker) load() (*gosym.Program, error) {
-	files, err := c.harnessFiles()
-	if err != nil {
-		return nil, err
-	}
+func (c *checker) loadFiles(files []string) (*gosym.Program, error) {
 	overlay := map[string][]byte{}
 	for _, f := range files {
 		b, err := os.ReadFile(f)
@@ -63,6 +68,41 @@ func (c *checker) load() (*gosym.Program, error) {
 		overlay[filepath.Join(c.repo, filepath.Base(f))] = b
 	}
 	return gosym.Load(c.repo, overlay)
+}
+
+func (c *checker) load() (*gosym.Program, error) {
+	files, err := c.harnessFiles()
+	if err != nil {
+		return nil, err
+	}
+	for round := 0; ; round++ {
+		prog, err := c.loadFiles(files)
+		if err == nil {
+			c.filesCached = files
+			return prog, nil
+		}
+		if round >= 6 {
+			return nil, err
+		}
+		// harness files named in the errors are left out and the load retried
+		// (never zz_verif_api.go / zz_verif_env.go: without them nothing runs)
+		msg := err.Error()
+		var keep []string
+		n := 0
+		for _, f := range files {
+			base := filepath.Base(f)
+			if strings.Contains(msg, "/"+base+":") && base != "zz_verif_api.go" && base != "zz_verif_env.go" {
+				c.dropped = append(c.dropped, base)
+				n++
+				continue
+			}
+			keep = append(keep, f)
+		}
+		if n == 0 {
+			return nil, err
+		}
+		files = keep
+	}
 }
 
 func (c *checker) knownFor(id string) (known []knownFinding, all []knownFinding) {
@@ -161,6 +201,9 @@ func (c *checker) run(id string) int {
 	nativeRaces := map[string]map[string]bool{}
 	var sums []harnessSummary
 	var inconcl []string
+	if len(c.dropped) > 0 {
+		inconcl = append(inconcl, "harness files that do not compile against this tree were left out (their harnesses did not run): "+strings.Join(c.dropped, " "))
+	}
 	var violLines []string
 	var knownLines []string
 	funcs := map[string]int{}
